@@ -26,7 +26,21 @@ def _v(prop, sig, detail, replay):
 # ---------------------------------------------------------------------------
 # callables under test
 
-def build_forms(spec, decorate):
+class KeygenShim(object):
+    """adapter: a klepto.keygen key function looked at through the wrapper interface (key only; it caches nothing)"""
+    no_cache = True
+
+    def __init__(self, K):
+        self.K = K
+
+    def key(self, /, *a, **k):
+        return self.K(*a, **k)
+
+    def __call__(self, /, *a, **k):
+        raise TypeError('a key generator does not call the function')
+
+
+def build_forms(spec, decorate, keygen=None):
     """spec = (npos, ndef, varargs, kwonly, varkw); decorate(callable, ignore_self) -> wrapper.
     yields (form name, keyfn(args, kwitems), callfn(args, kwitems), bindfn(args, kwitems), counter)"""
     names = spec[5] if len(spec) > 5 else None
@@ -37,6 +51,10 @@ def build_forms(spec, decorate):
     f = plain.compile()
     W = decorate(f, False)
     out.append(('function', W, (), f, f.CALLS))
+    # the stand-alone key generator klepto.keygen()(f) for the same function, with the same keymap (no cache behind it)
+    if keygen is not None:
+        fk = plain.compile()
+        out.append(('keygen()', KeygenShim(keygen(fk)), (), fk, fk.CALLS))
     # method decorated in the class body, called through an instance
     for ign in (False, True):
         g = meth.compile()
@@ -98,6 +116,8 @@ def call_list(tier, typed=False, spec=None):
                  if any(isinstance(x, str) for x in c[0])]
         # ... and strings that read like the repr of another call's arguments ('1' next to 1, "(1, 1)" next to (1, 1))
         extra += [(('1',), ()), (('1', 1), ()), ((1, '1'), ()), (("(1, 1)",), ()), (('None',), ()), ((None,), ()), (("'1'",), ())]
+        # ... strings that differ only in characters a narrow codec cannot represent
+        extra += [(('a\u03b1',), ()), (('a\u03b2',), ()), (('a',), ()), (('\u4e2d',), ()), (('\u6587',), ())]
         # ... and one container argument next to its elements passed separately
         extra += [(((1, 2),), ()), (((),), ()), (((1,),), ()), (((1, 2), 1), ())]
     if tier == 'quick':
@@ -121,10 +141,13 @@ def _w_c0910(task):
     for kmname, mk, preserving in kms:
         if prop == 'C10' and not preserving:
             continue
-        forms = build_forms(spec, lambda c, ign: klepto.inf_cache(keymap=mk(), ignore=('self',) if ign else None)(c))
+        forms = build_forms(spec, lambda c, ign: klepto.inf_cache(keymap=mk(), ignore=('self',) if ign else None)(c),
+                            keygen=lambda fn: klepto.keygen(keymap=mk())(fn))
         # C10 claims discrimination for non-flat keymaps, and for flat ones only with a sentinel or without variadic
         # positionals: a flat key without sentinel cannot tell f('k', 1) from f(k=1), and nobody says it can
-        ambiguous_by_design = spec[2] and 'flat=False' not in kmname and 'sentinel' not in kmname
+        # (asked of the keymap object itself: in a chain a + b the right operand decides)
+        _m = mk()
+        ambiguous_by_design = bool(spec[2]) and bool(_m.flat) and not _m._mark
         for form, W, prefix, ref, counter in forms:
             groups = collections.OrderedDict()     # binding -> list of (call, key)
             for (a, kw) in calls:
@@ -140,6 +163,10 @@ def _w_c0910(task):
                 res['counts']['evaluations'] += 1
                 try:
                     key = W.key(*args, **dict(kw))
+                except UnicodeEncodeError:
+                    if 'stringmap(' in kmname and any(isinstance(x, str) and not x.isascii() for x in a):
+                        continue        # a codec that cannot represent the argument refuses it: nothing is merged
+                    raise
                 except Exception as e:
                     res['violations'].append(_v(prop, {'rule': 'key-raises', 'exc': type(e).__name__, 'keymap': kmname, 'form': form},
                                                 '%s [%s] key(%r, %r) raised %r' % (sigtext, form, a, kw, e),
@@ -174,7 +201,7 @@ def _w_c0910(task):
                         hash(members[0][1])
                 except TypeError:
                     hashable = False
-                if hashable and groups:
+                if hashable and groups and not getattr(W, 'no_cache', False):
                     n0 = counter[0]
                     for b, members in groups.items():
                         for (a, kw), key in members:
@@ -210,7 +237,7 @@ def _w_c0910(task):
                         hash(members[0][1])
                 except TypeError:
                     hashable = False
-                if hashable:
+                if hashable and not getattr(W, 'no_cache', False):
                     for b, members in groups.items():
                         for (a, kw), key in members[:2]:
                             got = W(*(prefix + a), **dict(kw))
